@@ -2,8 +2,11 @@ import Driver.Util
 import Driver.C16
 import Driver.Recv
 import Driver.Send
+import Driver.Loop
 import Driver.C09
+import Driver.C08
 import Driver.C10
+import Driver.C13
 import Driver.C11
 import Driver.C12
 import Driver.C17
@@ -17,8 +20,13 @@ def dispatch (j : Json) : R Json := do
   | "c16" => Driver.C16.handle op j
   | "recv" => Driver.Recv.handle op j
   | "send" => Driver.Send.handle op j
+  | "loop" => Driver.Loop.handle op j
   | "c09" => Driver.C09.handle op j
+  | "c08" => Driver.C08.handle op j
+  | "c18" => Driver.C08.handle op j
   | "c10" => Driver.C10.handle op j
+  | "c13" => Driver.C13.handle op j
+  | "c14" => Driver.C13.handle op j
   | "c11" => Driver.C11.handle op j
   | "c12" => Driver.C12.handle op j
   | "c17" => Driver.C17.handle op j
